@@ -52,6 +52,12 @@ MUTANTS = {
     'rows_dropped_when_future_slow': ('C13', {'lost_row'}, [
         (MC, 'for future in concurrent.futures.as_completed(futures):', 'for future in concurrent.futures.as_completed(futures[: max(1, len(futures) - 1)]):')],
         'last submitted iteration never collected'),
+    'resume_interrupted_result_file': ('C13', {'extra_row', 'lost_row'}, [
+        (MC, "    with open(output_file, 'w') as f:\n        f.write(s)\n",
+         "    interrupted = False\n    if os.path.exists(output_file):\n        with open(output_file) as f:\n            old = f.read()\n"
+         "        interrupted = old.startswith(s) and 'minimum:' not in old\n"
+         "    if not interrupted:\n        with open(output_file, 'w') as f:\n            f.write(s)\n")],
+        'a result file left by a killed run (header, some rows, no summary) is continued instead of being started afresh: needs crash + restart'),
     'revert_F4_workers_append_under_pylocker': ('C13', {'lost_row'}, 'git:fd92d50', 'lock overwrite + os._exit drops the buffered row'),
     'stat_mean_is_median': ('C14', {'stats_mismatch'}, [
         (MC, 'means = np.nanmean(results, 0)', 'means = np.nanmedian(results, 0)')], 'wrong statistic stored as mean'),
